@@ -50,4 +50,45 @@ def execR (P : Prog) : Nat → Run State → Task Nat (Option Nat) → Run State
         execR P n (r2.markIf v.ref (.ret (v.val + bumpOf body))) (.loop a p' (v.after (v.val + bumpOf body)))
       else { r with bad := true }
 
+/-! ### listener address reuse, generic in the machine (for the refinement proof) -/
+
+/-- a machine that can construct a new listener at the id of a destroyed one -/
+structure MachineR (σ α π : Type) extends Machine σ α π where
+  reviveL : Nat → σ → σ
+
+/-- `Run.prim` with listener address reuse: `newL` constructs the new listener at the id the variable holds (`lId`, `lIdx`,
+    `nextL` never change); a new emitter gets a new id as in `Run.prim` -/
+def Run.primRL {σ α π : Type} (M : MachineR σ α π) (r : Run σ) : Action → Run σ
+  | .newL l => if M.aliveL r.m (r.lId l) then r else { r with m := M.reviveL (r.lId l) r.m }
+  | a => r.prim M.toMachine a
+
+/-- `exec` with `primRL` in the place of `prim` (the same text otherwise) -/
+def execRL {σ α π : Type} (M : MachineR σ α π) (P : Prog) : Nat → Run σ → Task α π → Run σ
+  | 0, r, _ => { r with oof := true }
+  | _ + 1, r, .acts [] => r
+  | n + 1, r, .acts (.emit e g v :: as) =>
+    let r1 : Run σ :=
+      if M.aliveE r.m (r.emId e) then
+        match M.begin (r.emId e) g r.m with
+        | (m1, none) => ({ r with m := m1 }.mark (.emitBegin e g v)).mark .emitEnd
+        | (m1, some (a, p)) =>
+          let r2 := execRL M P n ({ r with m := m1 }.mark (.emitBegin e g v)) (.loop a p ⟨v, P.ref g⟩)
+          { r2 with m := M.finish a r2.m }.mark .emitEnd
+      else r
+    execRL M P n r1 (.acts as)
+  | n + 1, r, .acts (a :: as) => execRL M P n (r.primRL M a) (.acts as)
+  | n + 1, r, .loop a p v =>
+    match M.next r.m a p with
+    | .done => r
+    | .fault => { r with bad := true }
+    | .call l s p' =>
+      if M.aliveL r.m l then
+        let body := P.script (r.lIdx l) s (r.inv (r.lIdx l) s)
+        let r2 := execRL M P n (r.enter (r.lIdx l) s v.val) (.acts body)
+        execRL M P n (r2.markIf v.ref (.ret (v.val + bumpOf body))) (.loop a p' (v.after (v.val + bumpOf body)))
+      else { r with bad := true }
+
+/-- the model of Callback.cpp with listener address reuse -/
+def machineRL : MachineR State Nat (Option Nat) := { machine with reviveL := reviveL }
+
 end Nstd.Callback
